@@ -20,6 +20,10 @@ def gen_cases(ctx, n_grammars, n_inputs):
     cases = []
     for g in G.classic_corpus():
         cases.append((g, G.inputs_for(rng, g, n_inputs * 2)))
+    for src, ins, _ in G.rare_shape_corpus():
+        g = G.from_text(src)
+        ctx.count("family_rare_shapes")
+        cases.append((g, [list(x) for x in ins] + G.inputs_for(rng, g, n_inputs)))
     for src in G.gc_chain_corpus()[:ctx.n(20, 60)] + G.gc_corpus()[:ctx.n(40, 120)]:
         g = G.from_text(src)
         ctx.count("family_gc_corpus")
